@@ -1,15 +1,29 @@
-Check (C10_segment_reads_back_as_queued : forall (l : list frag_sample) (seq base : N),
-  l <> [] -> seg_fits l -> (96 + 16 * len l < 2147483648)%N -> (seq < 4294967296)%N -> (base < 18446744073709551616)%N ->
-  segment_read (build_media_segment l seq base) = Some {| sv_seq := seq; sv_tfdt := base; sv_samples := spec_seg_samples l |}).
-Check (C10_muxer_refines_queue : forall (m : fmuxer) (o : fop),
+Open Scope N_scope.
+Check (C10_segment_reads_back_as_queued : (forall (l : list frag_sample) (seq base : N),
+  l <> [] -> seg_fits l -> 96 + 16 * len l < 2147483648 ->
+  seq < 4294967296 -> base < 18446744073709551616 ->
+  segment_read (build_media_segment l seq base) =
+    Some {| sv_seq := seq; sv_tfdt := base; sv_samples := spec_seg_samples l |})%type).
+Check (C10_muxer_refines_queue : (forall (m : fmuxer) (o : fop),
   abs (fst (fstep m o)) = fst (aq_step (abs m) o) /\
   (match snd (fstep m o) with
-   | FrSeg (Some b) => exists s0 rest, snd (aq_step (abs m) o) = [(fm_seq m, s0 :: rest)] /\ b = build_media_segment (s0 :: rest) (fm_seq m) (fs_dts s0)
+   | FrSeg (Some b) => exists s0 rest, snd (aq_step (abs m) o) = [(fm_seq m, s0 :: rest)] /\
+                        b = build_media_segment (s0 :: rest) (fm_seq m) (fs_dts s0)
    | _ => snd (aq_step (abs m) o) = []
-   end)).
-Check (C10_no_sample_lost_duplicated_or_reordered : forall (ops : list fop),
-  concat (map snd (aq_run aq_init ops)) ++ aq_pending (fold_left (fun q o => fst (aq_step q o)) ops aq_init) = accepted_writes None ops).
-Check (C10_sequence_numbers_count_from_one : forall (ops : list fop), map fst (aq_run aq_init ops) = map N.of_nat (seq 1 (length (aq_run aq_init ops)))).
-Check (C10_write_rejected_iff_dts_decreases : forall m p d b s, (exists a c, snd (f_write m p d b s) = FrErrNonMonotonic a c) <-> (exists l, fm_last_dts m = Some l /\ (d < l)%N)).
-Check (C10_roundtrip_needs_the_i32_offset_bound : ~ (forall l seq base, l <> [] -> seg_fits l -> (seq < 4294967296)%N -> (base < 18446744073709551616)%N ->
-       segment_read (build_media_segment l seq base) = Some {| sv_seq := seq; sv_tfdt := base; sv_samples := spec_seg_samples l |})).
+   end))%type).
+Check (C10_no_sample_lost_duplicated_or_reordered : (forall (ops : list fop),
+  concat (map snd (aq_run aq_init ops)) ++
+    aq_pending (fold_left (fun q o => fst (aq_step q o)) ops aq_init)
+  = accepted_writes None ops)%type).
+Check (C10_sequence_numbers_count_from_one : (forall (ops : list fop),
+  map fst (aq_run aq_init ops) = map N.of_nat (seq 1 (length (aq_run aq_init ops))))%type).
+Check (C10_write_rejected_iff_dts_decreases : (forall m p d b s,
+  (exists a c, snd (f_write m p d b s) = FrErrNonMonotonic a c) <->
+  (exists l, fm_last_dts m = Some l /\ d < l))%type).
+Check (C10_roundtrip_needs_the_i32_offset_bound : (~ (forall l seq base, l <> [] -> seg_fits l -> seq < 4294967296 -> base < 18446744073709551616 ->
+       segment_read (build_media_segment l seq base) =
+         Some {| sv_seq := seq; sv_tfdt := base; sv_samples := spec_seg_samples l |}))%type).
+Check (C10_fragmented_history_conserves_samples : (forall (c : frag_config) (ops : list fop),
+  all_segments_fit ops ->
+  check_C10 ops (map fout_of (snd (frun (fmuxer_new c) ops))) = true)%type).
+Check (C10_fragmented_muxer_never_panics : (forall ops m, ~ In FrPanic (snd (frun m ops)))%type).
